@@ -4,10 +4,18 @@ import SarpyModel.Spec.XmlFmt
   Line protocol for `Spec.XmlFmt`.  Texts, tags, namespace keys and field names are numbers interned by the harness, so the
   codec is instantiated at `P = S = Nat` with the identity text codec (the real text codecs are tested on the implementation).
 
-  tables  := class (';' class)*            class := 'C' | 'R' [row (',' row)*]
+  tables  := class (';' class)*            class := 'C' | 'R' [row (',' row)*] | 'Y' polyspec
   row     := name ':' tns ':' tloc ':' pns ':' ploc ':' req ':' kind
   kind    := 'p' prim | 'a' prim | 't' prim | 'c' cid | 'l' cid | 'm' prim
-           | 'y' cid ':' ctns ':' ctloc ':' pctns ':' pctloc ':' ('-' | szns ':' szloc)
+           | 'y' cid ':' ctns ':' ctloc ':' pctns ':' pctloc ':' ('-:-' | szns ':' szloc) ':' pszns ':' pszloc ':' min ':' max
+                 ':' ('-' | idxpos) ':' ('-' | label ('.' label)*) ':' idxlimit
+           | 'f' prim ':' ctns ':' ctloc ':' pctns ':' pctloc ':' szns ':' szloc ':' pszns ':' pszloc ':' ixns ':' ixloc ':' base
+           | 'q' cid ':' ('-' | wns ':' wloc ':' pwns ':' pwloc)
+           | 'n' prim ':' src | 'k' prim ':' const ':' asAttr | 'w' prim ':' ('-' | row '.' const ('/' row '.' const)*)
+  polyspec:= two ':' 11 qualified names (coef, pcoef, dim1, pdim1, dim2, pdim2, exp1, pexp1, exp2, pexp2 as ns ':' loc)
+             ':' dimOff ':' prim ':' dname ':' fill ':' ('-' | wns ':' wloc ':' pwns ':' pwloc)
+  texts: canonical decimal naturals are interned as sizeBase + n (so that sizes, indices, exponents, orders and counts are
+  the same text on both sides); constants in the tables are the ids of their texts
   value   := prefix token stream, ',' separated: 'A' | 'P' text | 'N' count kids... | 'B' nattrs ':' ('-'|text) ':' nchildren attrs... nodes...
   node    := 'E' ns ':' loc ':' nattrs ':' ('-'|text) ':' nchildren   then nattrs tokens  ns ':' loc ':' text   then the children
   requests (after the word `xml`):
@@ -24,10 +32,25 @@ abbrev X := XmlNode Nat
 
 def sizeBase : Nat := 1000000000
 def idCodec : Codec Nat Nat :=
-  { toText := fun _ x => x, ofText := fun _ s => some s, ok := fun _ _ => true, sizeText := fun n => sizeBase + n }
+  { toText := fun _ x => x, ofText := fun _ s => some s, ok := fun _ _ => true, sizeText := fun n => sizeBase + n,
+    ofSize := fun s => if s ≥ sizeBase then some (s - sizeBase) else none, natVal := fun n => sizeBase + n,
+    constVal := fun k => k, peq := fun a b => a == b }
 def fuel : Nat := 48
 
 def nats (s : String) : Option (List Nat) := (s.splitOn ":").mapM (·.toNat?)
+
+def optQ (a b : String) : Option (Option QName) :=
+  if a == "-" then some none else do
+    let x ← a.toNat?; let y ← b.toNat?
+    pure (some (x, y))
+
+def dotted (s : String) : Option (List Nat) := if s == "-" then some [] else (s.splitOn ".").mapM (·.toNat?)
+
+def parseAlts (s : String) : Option (List (Nat × Nat)) :=
+  if s == "-" then some [] else
+  (s.splitOn "/").mapM (fun e => match e.splitOn "." with
+    | [a, b] => do let a ← a.toNat?; let b ← b.toNat?; pure (a, b)
+    | _ => none)
 
 def parseKind (k : String) (rest : List String) : Option Kind :=
   match k.toList with
@@ -40,13 +63,64 @@ def parseKind (k : String) (rest : List String) : Option Kind :=
   | 'y' :: r => do
     let c ← (String.ofList r).toNat?
     match rest with
-    | [a, b, x, y, "-"] => do
+    | [a, b, x, y, s, t, ps, pt, mn, mx, ix, lb, lim] => do
       let a ← a.toNat?; let b ← b.toNat?; let x ← x.toNat?; let y ← y.toNat?
-      pure (.array c (a, b) (x, y) none)
-    | [a, b, x, y, s, t] => do
-      let a ← a.toNat?; let b ← b.toNat?; let x ← x.toNat?; let y ← y.toNat?; let s ← s.toNat?; let t ← t.toNat?
-      pure (.array c (a, b) (x, y) (some (s, t)))
+      let sz ← optQ s t
+      let ps ← ps.toNat?; let pt ← pt.toNat?; let mn ← mn.toNat?; let mx ← mx.toNat?
+      let ix ← if ix == "-" then some none else ix.toNat?.map some
+      let lb ← dotted lb
+      let lim ← lim.toNat?
+      pure (.array c { childTag := (a, b), pChildTag := (x, y), sizeAttr := sz, pSizeAttr := (ps, pt), minLen := mn, maxLen := mx,
+                       idxPos := ix, idxLabels := lb, idxLimit := lim })
     | _ => none
+  | 'f' :: r => do
+    let p ← (String.ofList r).toNat?
+    match rest.mapM (·.toNat?) with
+    | some [a, b, x, y, s, t, ps, pt, ia, ib, base] =>
+      pure (.floatArr { prim := p, childTag := (a, b), pChildTag := (x, y), sizeAttr := (s, t), pSizeAttr := (ps, pt),
+                        idxAttr := (ia, ib), base := base })
+    | _ => none
+  | 'q' :: r => do
+    let c ← (String.ofList r).toNat?
+    match rest with
+    | ["-"] => pure (.params c none)
+    | [a, b, x, y] => do
+      let a ← a.toNat?; let b ← b.toNat?; let x ← x.toNat?; let y ← y.toNat?
+      pure (.params c (some ((a, b), (x, y))))
+    | _ => none
+  | 'n' :: r => do
+    let p ← (String.ofList r).toNat?
+    match rest with
+    | [src] => do let src ← src.toNat?; pure (.count p src)
+    | _ => none
+  | 'k' :: r => do
+    let p ← (String.ofList r).toNat?
+    match rest with
+    | [k, a] => do let k ← k.toNat?; pure (.const p k (a == "1"))
+    | _ => none
+  | 'w' :: r => do
+    let p ← (String.ofList r).toNat?
+    match rest with
+    | [alts] => do let alts ← parseAlts alts; pure (.which p alts)
+    | _ => none
+  | _ => none
+
+def parsePolySpec (s : String) : Option PolySpec :=
+  match s.splitOn ":" with
+  | two :: rest =>
+    match (rest.take 24).mapM (·.toNat?), rest.drop 24 with
+    | some [c1, c2, pc1, pc2, d1a, d1b, pd1a, pd1b, d2a, d2b, pd2a, pd2b, e1a, e1b, pe1a, pe1b, e2a, e2b, pe2a, pe2b, off, pr, dn, fl], w =>
+      let mk (wr : Option (QName × QName)) : PolySpec :=
+        { two := two == "1", coefTag := (c1, c2), pCoefTag := (pc1, pc2), dim1 := (d1a, d1b), pDim1 := (pd1a, pd1b),
+          dim2 := (d2a, d2b), pDim2 := (pd2a, pd2b), exp1 := (e1a, e1b), pExp1 := (pe1a, pe1b), exp2 := (e2a, e2b),
+          pExp2 := (pe2a, pe2b), dimOff := off, wrapper := wr, prim := pr, dname := dn, fill := fl }
+      match w with
+      | ["-"] => some (mk none)
+      | [a, b, x, y] => do
+        let a ← a.toNat?; let b ← b.toNat?; let x ← x.toNat?; let y ← y.toNat?
+        pure (mk (some ((a, b), (x, y))))
+      | _ => none
+    | _, _ => none
   | _ => none
 
 def parseRowTok (s : String) : Option Row :=
@@ -62,6 +136,7 @@ def parseClass (s : String) : Option ClassTab :=
   else if s == "R" then some (.rows [])
   else match s.toList with
     | 'R' :: r => ((String.ofList r).splitOn ",").mapM parseRowTok |>.map .rows
+    | 'Y' :: r => (parsePolySpec (String.ofList r)).map .poly
     | _ => none
 
 def parseTabs (s : String) : Option Tabs := (s.splitOn ";").mapM parseClass
@@ -219,8 +294,8 @@ def xmlStep (toks : List String) : Option String :=
     let c ← cid.toNat?
     let (v, rest) ← readVal big (val.splitOn ",")
     if !rest.isEmpty then none else
-    let d := toDictN T fuel c v
-    let rt := match ofDictN T fuel c d with
+    let d := toDictN idCodec T fuel c v
+    let rt := match ofDictN idCodec T fuel c d with
       | some w => showVal big w == showVal big v
       | none => false
     pure s!"{dwfTabs T} {wfValN idCodec T false fuel c v} {rt} {join (showD big d)}"
